@@ -3,6 +3,7 @@ C04 — writes through any handle never clobber changes made via other handles.
 -/
 import SC.Lemmas.Seq
 import SC.Lemmas.Refine
+import SC.Lemmas.Path
 import SC.Lemmas.OpTable
 import SC.Lemmas.Natural
 import SC.Table
@@ -141,6 +142,62 @@ example :
     let s2 := (call s1 (.root 1) (.dSetitem (.s "b") (.leaf (.int 2)))).1
     (match s2.store 0 with
      | some d => Tr.same d (.dict () [(.s "a", .leaf (.int 1)), (.s "b", .leaf (.int 2))] : J)
+     | none => false) = true := by
+  decide
+
+/-- C04 for a NESTED CHILD HANDLE (the property's "any handle"): the user holds the nested collection
+with identity `id`, which sits at path `p` — any depth — of object `oi`'s tree.  The backend
+currently holds `d` — written by whoever — with containers of the same kind along `p`; `oi`'s memory
+is otherwise ARBITRARY.  A call through the handle first loads the ROOT; the handle then still
+denotes the node at `p` (same identity), whose content is exactly the data at `p`; the body runs on
+that node; and a mutator leaves the backend holding the backend's content with the body's result AT
+PATH `p` — every position outside `p` exactly as the backend had it (`Tr.setSub`; `Eqv t d`).
+Hypotheses on identities: pairwise distinct in `oi`'s tree and below the counter (kept by every
+merge: `C02_merge_keeps_identities_distinct`), and `id` occurs in no object before `oi`. -/
+theorem C04_child_call_runs_on_backend_content (s : State) (oi id : Nat) (o : Obj) (d : J) (p : List Seg)
+    (c : T) (op : Op)
+    (ho : s.objs[oi]? = some o) (hst : s.store o.res = some d) (hown : s.ownerOf id = some oi)
+    (hsub : Tr.sub p o.root = some c) (hid : c.id? = some id)
+    (hnd : (Tr.ids o.root).Nodup) (hlt : ∀ i ∈ Tr.ids o.root, i < s.next)
+    (hother : ∀ j o', j < oi → s.objs[j]? = some o' → id ∉ Tr.ids o'.root)
+    (hv : Valid (s.fam o) d) (hwd : d.wf = true) (hwt : o.root.wf = true)
+    (hk : kindsMatch p o.root d = true) (hns : op.skipsLoad = false)
+    (hpre : preValidate (s.fam o) c.isDict op = none) :
+    ∃ c' dc, Tr.sub p (updNode (s.fam o) o.root d s.next).val = some c' ∧ c'.id? = some id ∧
+      Tr.sub p d = some dc ∧ Eqv c' dc ∧
+      Eqv (updNode (s.fam o) o.root d s.next).val d ∧
+      (call s (.node id) op).2 =
+        (match (runBody (s.fam o) c' op (loadRoot s oi).1.next).err with
+         | some e => .error e
+         | none => .ok (runBody (s.fam o) c' op (loadRoot s oi).1.next).out) ∧
+      (op.isRead = false → (call s (.node id) op).1.store o.res =
+        some (Tr.setSub p (updNode (s.fam o) o.root d s.next).val.toBase
+          (runBody (s.fam o) c' op (loadRoot s oi).1.next).node.toBase)) ∧
+      (op.isRead = true → (call s (.node id) op).1.stores = s.stores) :=
+  call_child_refines s oi id o d p c op ho hst hown hsub hid hnd hlt hother hv hwd hwt hk hns hpre
+
+/-- what "at path `p`, everything else as it was" means for content: the replaced position holds
+the new content ... -/
+theorem C04_setSub_same (p : List Seg) (t c new : J) (h : Tr.sub p t = some c) :
+    Tr.sub p (Tr.setSub p t new) = some new := sub_setSub_same p t c new h
+
+/-- non-vacuity of the child-handle step: object 0 holds (stale) `{"a": [1, {"k": 1}], "b": 2}`,
+the user holds the inner dict (identity 2, path a/1); an outside writer replaced the file by
+`{"c": null, "a": [true, {"z": []}, 9]}`; `inner["q"] = 7` leaves the file with the outside
+writer's content plus `q` in the inner dict.  All hypotheses of the theorem hold in this state. -/
+example :
+    let fam : Fam := ⟨[.requireStringKey, .jsonFormat], [.requireStringKey, .jsonFormat]⟩
+    let d0 : J := .dict () [(.s "a", .list () [.leaf (.int 1), .dict () [(.s "k", .leaf (.int 1))]]), (.s "b", .leaf (.int 2))]
+    let d1 : J := .dict () [(.s "c", .leaf .null), (.s "a", .list () [.leaf (.bool true), .dict () [(.s "z", .list () [])], .leaf (.int 9)])]
+    let s0 := (openObj (State.empty [fam]) 0 true 0 (some d0)).1
+    let s1 := extWrite s0 0 d1
+    let p : List Seg := [.key (.s "a"), .idx 1]
+    ((s1.objs[0]?).map (fun o => kindsMatch p o.root d1 && decide (Tr.ids o.root).Nodup &&
+        (Tr.ids o.root).all (· < s1.next) && ((Tr.sub p o.root).bind Tr.id? == some 2) && o.root.wf)) = some true ∧
+    s1.ownerOf 2 = some 0 ∧ d1.wf = true ∧
+    (match (call s1 (.node 2) (.dSetitem (.s "q") (.leaf (.int 7)))).1.store 0 with
+     | some x => Tr.same x (.dict () [(.s "a", .list () [.leaf (.bool true),
+          .dict () [(.s "z", .list () []), (.s "q", .leaf (.int 7))], .leaf (.int 9)]), (.s "c", .leaf .null)] : J)
      | none => false) = true := by
   decide
 
